@@ -101,6 +101,9 @@ def install_stubs(cpu, inputs, iset):
         n, ent = sc.next('alignment_fault', address, 0)
         sc.abort(n)
     cpu.alignment_fault = alignment_fault
+    # exclusive monitors: the oracles of the model
+    cpu.is_exclusive_local = lambda *a: bool(inputs.get('excl.local', False))
+    cpu.is_exclusive_global = lambda *a: bool(inputs.get('excl.global', False))
     instr = inputs['instr']
     oplen = 16 if iset == 'thumb16' else 32
     fetch_abort = bool((inputs.get('__mem__') or {}).get('fetch_abort', False))
@@ -278,6 +281,7 @@ def replay(iset, memarch, nregions, inputs, ob):
 
             def write(self, *a):
                 pass
+        st0['oracle.excl_pass'] = False
         base = Cpu(st0, 'arm' if iset == 'arm' else 'thumb', instr, 16 if iset == 'thumb16' else 32, ZeroMem())
         valid = []
         for r in ENC.TABLE.rows:
@@ -328,6 +332,9 @@ def replay(iset, memarch, nregions, inputs, ob):
             cfgs = registry.mods().configurations.configurations.configs
             for k in MC.CFG_BOOL + list(MC.CFG_INT):
                 st0['cfg.' + k] = cfgs.get(k)
+            shs = sorted(k for k in inputs if k.startswith('xlat') and k.endswith('.shareable'))
+            shareable = bool(inputs.get(shs[0])) if shs else False
+            st0['oracle.excl_pass'] = bool(inputs.get('excl.local')) and (not shareable or bool(inputs.get('excl.global')))
             bad = False
 
             class NativeMem:
